@@ -47,6 +47,7 @@ fn main() {
         "c10_431_respects_client_limit" => c10_431_respects_client_limit(),
         "c04_uni_streams" => c04_uni_streams(args.get(2).map(|s| s.as_str()).unwrap_or("duplicates")),
         "c09_split_halves" => c09_split_halves(),
+        "c09_end_order" => c09_end_order(args.get(2).map(|s| s.as_str()).unwrap_or("0,8,4")),
         "c19_payload_with_header" => c19_payload_with_header(),
         "c19_uni_header" => c19_uni_header(
             args.get(2).map(|s| s.as_str()).unwrap_or(""),
@@ -1574,4 +1575,66 @@ fn c12_field_sequence(list: &str) -> i32 {
         return 1;
     }
     0
+}
+
+
+/// Server: requests on the streams 0, 4, 8 (, 12 ..) are accepted and resolved, the peer announces GOAWAY, and the requests
+/// end (their handles are dropped) in the given order, accept() being polled after each end. While one of them is still in
+/// progress accept() must stay Pending; after the last one it must report 'no more requests'.
+fn c09_end_order(order: &str) -> i32 {
+    let order: Vec<u64> = order.split(',').filter_map(|x| x.trim().parse().ok()).collect();
+    let mut ids: Vec<u64> = order.clone();
+    ids.sort();
+    let mock = Mock::new(true);
+    let mut conn: h3::server::Connection<Mock, Bytes> =
+        drive(h3::server::builder().build(mock.clone()), 10).expect("build completes").expect("build ok");
+    let block = [0x00u8, 0x00, 0xd1, 0xd7, 0xc1, 0x50, 0x01, b'a'];
+    let mut bytes = vec![0x01, block.len() as u8];
+    bytes.extend_from_slice(&block);
+    let mut streams = std::collections::HashMap::new();
+    for id in &ids {
+        mock.push_bidi(*id, vec![RecvEvent::Data(bytes.clone())]);
+        let resolver = match drive(conn.accept(), 10) {
+            Some(Ok(Some(r))) => r,
+            _ => {
+                println!("request {} not accepted", id);
+                return 0;
+            }
+        };
+        match drive(resolver.resolve_request(), 10) {
+            Some(Ok((_req, stream))) => {
+                streams.insert(*id, stream);
+            }
+            _ => {
+                println!("request {} not resolved", id);
+                return 0;
+            }
+        }
+    }
+    // the client's control stream: SETTINGS, then GOAWAY(0)
+    mock.push_uni(2, vec![RecvEvent::Data(vec![0x00, 0x04, 0x00, 0x07, 0x01, 0x00])]);
+    let (_c, waker) = counting_waker();
+    let mut cx = Context::from_waker(&waker);
+    let mut rc = 0;
+    for (k, id) in order.iter().enumerate() {
+        drop(streams.remove(id));
+        let mut ended = false;
+        for _ in 0..3 {
+            if matches!(conn.poll_accept_request_stream(&mut cx), Poll::Ready(Ok(None))) {
+                ended = true;
+            }
+        }
+        let last = k + 1 == order.len();
+        println!("request {} ended ({} of {}): accept reports 'no more requests': {}", id, k + 1, order.len(), ended);
+        if ended && !last {
+            println!("REPRODUCED: accept() reports 'no more requests' while a request is still in progress");
+            rc = 1;
+        }
+        if !ended && last {
+            println!("REPRODUCED: every request has ended (order {:?}) but accept() still waits", order);
+            rc = 1;
+        }
+    }
+    std::mem::forget(conn);
+    rc
 }
